@@ -50,6 +50,8 @@ func newDriver(tier string) *driver {
 	cp := coinomicstypes.DefaultParams() // enabled, 7.8
 	w := world.New(world.Options{
 		NumAccounts: 3,
+		NumVals:     2,
+		ValTokens:   sdkmath.NewIntFromBigInt(new(big.Int).Exp(big.NewInt(10), big.NewInt(24), nil)),
 		Balance:     sdkmath.NewIntFromBigInt(new(big.Int).Exp(big.NewInt(10), big.NewInt(28), nil)),
 		Coinomics:   &cp,
 		Patch: func(a *app.Haqq, gs haqqtypes.GenesisState) haqqtypes.GenesisState {
@@ -225,6 +227,27 @@ func (d *driver) ops(w *world.World, depth int, path []string) []engine.Op {
 			a, _ := sdkmath.NewIntFromString(amt)
 			_, err := w.RunMsg(w.Ctx(), stakingtypes.NewMsgDelegate(w.Addrs[1], w.ValAddr[0], sdk.NewCoin(world.Denom, a)))
 			return engine.ErrClass(err)
+		})
+	}
+	// the bonded figure of a block is the one AFTER the block's validator-set changes: jailing moves a
+	// validator's stake out of the bonded pool in the staking end blocker of the same block, unjailing
+	// moves it back
+	if len(w.ValAddr) > 1 {
+		add("jail(V2)", func(p []string, res *engine.Result) string {
+			v, ok := w.App.StakingKeeper.GetValidator(w.Ctx(), w.ValAddr[1])
+			if !ok || v.IsJailed() {
+				return "skip"
+			}
+			w.App.StakingKeeper.Jail(w.Ctx(), w.ValCons[1])
+			return "ok"
+		})
+		add("unjail(V2)", func(p []string, res *engine.Result) string {
+			v, ok := w.App.StakingKeeper.GetValidator(w.Ctx(), w.ValAddr[1])
+			if !ok || !v.IsJailed() {
+				return "skip"
+			}
+			w.App.StakingKeeper.Unjail(w.Ctx(), w.ValCons[1])
+			return "ok"
 		})
 	}
 	return out
@@ -432,7 +455,7 @@ func Run(tier string) int {
 	res.Sample(map[string]any{"example_path": []string{"coef(100)", "block(+6s)", "max(supply+mint6s-1)", "block(+6s)"}})
 	return engine.Finish(res, engine.Meta{
 		Property: Prop, Tier: tier, Level: "model_checking", Start: start, Replayer: Replay,
-		Rule:     "all sequences <= depth over the alphabet (incl. the macro step max(supply)+block that runs into the cap); a block transition is the real app.EndBlock + virtual BeginBlock; non-trivial = a block that minted a non-zero formula amount, distinct by (bonded, coefficient, elapsed, year)",
+		Rule:     "all sequences <= depth over the alphabet (incl. the macro step max(supply)+block that runs into the cap, and jailing / unjailing a validator so that the bonded pool changes in the block's own staking end blocker); a block transition is the real app.EndBlock + virtual BeginBlock; non-trivial = a block that minted a non-zero formula amount, distinct by (bonded, coefficient, elapsed, year)",
 		Bounds:   map[string]any{"depth": depth, "shards": 16},
 		Alphabet: alpha,
 		Assumptions: []string{
